@@ -261,7 +261,7 @@ func runPayload(out *TraceWriter, seed int64, full bool) {
 	k2, p2 := crypto.Generate(rand.Reader)
 	h0 := bb.Hash()
 	_ = bb.Sign(k1)
-	w(pRow{K: "mut", Obj: "block", Field: "signature", Same: h0 == bb.Hash()})
+	w(pRow{K: "mut", Obj: "block", Field: "own-signature", Same: h0 == bb.Hash()})
 	// signatures verify only under the signer's key for the signed data
 	other := bv["nonce"]
 	sig := bb.Signature()
